@@ -7,22 +7,22 @@ From Coq Require Import ZArith Lia.
 From Coq Require Import ZifyN ZifyNat ZifyBool.
 Open Scope N_scope.
 
-Lemma dup_not_unique c : dup_rows c -> ~ unique_ok c.
+Lemma dup_not_unique g c : dup_rows g c -> ~ unique_ok g c.
 Proof. intros (Hu & k1 & r1 & k2 & r2 & H1 & H2 & Hv & Hn) U. apply Hn. eapply U; eauto. Qed.
 
-Lemma wit_unique_dup : dup_rows (s_c (run g_plain old_code wit_unique)).
+Lemma wit_unique_dup : dup_rows g_plain (s_c (run g_plain old_code wit_unique)).
 Proof.
   split; [vm_compute; reflexivity|].
   exists 2%Z, (mkRow (VInt 10) VNull), 3%Z, (mkRow (VInt 10) VNull). vm_compute.
   repeat split; auto; try discriminate.
 Qed.
-Lemma wit_unique_conc_dup : dup_rows (s_c (run g_plain old_code wit_unique_conc)).
+Lemma wit_unique_conc_dup : dup_rows g_plain (s_c (run g_plain old_code wit_unique_conc)).
 Proof.
   split; [vm_compute; reflexivity|].
   exists 2%Z, (mkRow (VInt 10) VNull), 3%Z, (mkRow (VInt 10) VNull). vm_compute.
   repeat split; auto; try discriminate.
 Qed.
-Lemma wit_create_dup : dup_rows (s_c (run g_plain old_code wit_create)).
+Lemma wit_create_dup : dup_rows g_plain (s_c (run g_plain old_code wit_create)).
 Proof.
   split; [vm_compute; reflexivity|].
   exists 2%Z, (mkRow (VInt 10) VNull), 3%Z, (mkRow (VInt 10) VNull). vm_compute.
@@ -30,13 +30,13 @@ Proof.
 Qed.
 
 Lemma unique_refuted :
-  exists g evs, ~ unique_ok (s_c (run g old_code evs)).
+  exists g evs, ~ unique_ok g (s_c (run g old_code evs)).
 Proof. exists g_plain, wit_unique. apply dup_not_unique, wit_unique_dup. Qed.
 Lemma unique_conc_refuted :
-  exists g evs, ~ unique_ok (s_c (run g old_code evs)).
+  exists g evs, ~ unique_ok g (s_c (run g old_code evs)).
 Proof. exists g_plain, wit_unique_conc. apply dup_not_unique, wit_unique_conc_dup. Qed.
 Lemma unique_create_refuted :
-  exists g evs, ~ unique_ok (s_c (run g old_code evs)).
+  exists g evs, ~ unique_ok g (s_c (run g old_code evs)).
 Proof. exists g_plain, wit_create. apply dup_not_unique, wit_create_dup. Qed.
 (* the repaired check rejects the last INSERT of the witness (the model of the repaired code) *)
 Example wit_unique_fixed :
@@ -91,7 +91,7 @@ Proof.
   - destruct (exec_stmt g fx (s_c st) t s); simpl; try discriminate;
       intros _; (split; [reflexivity | split; [apply slookup_sremove | intros; apply slookup_sremove_other; auto]]).
   - destruct (run_auto g fx (s_c st) [s]); simpl; try discriminate; intros _; auto.
-  - destruct (commit (s_c st) t); simpl; try discriminate;
+  - destruct (commit g (s_c st) t); simpl; try discriminate;
       intros _; (split; [reflexivity | split; [apply slookup_sremove | intros; apply slookup_sremove_other; auto]]).
   - destruct (run_auto g fx (s_c st) ss); simpl; try discriminate; intros _; auto.
   - destruct (ddl fx (s_c st) u); simpl; try discriminate; intros _; auto.
@@ -99,7 +99,7 @@ Qed.
 
 (* ---------- uniqueness for the code as it is: where the first-key lookup is not fooled ---------- *)
 Lemma unique_partial g evs :
-  s_c (run g old_code evs) = s_c (run g fix_unique_only evs) -> unique_ok (s_c (run g old_code evs)).
+  s_c (run g old_code evs) = s_c (run g fix_unique_only evs) -> unique_ok g (s_c (run g old_code evs)).
 Proof. intros ->. apply unique_fixed. reflexivity. Qed.
 (* the premise is satisfiable (and says something): a history with updates and deletes *)
 Example unique_partial_premise :
